@@ -10,6 +10,9 @@ import Gtree.Model.Path
 -/
 namespace Gtree.Go
 
+/-- `a + b` on strings is concatenation -/
+instance : Add Bytes := ⟨fun a b => a ++ b⟩
+
 /-- `len(s)` of a string (its bytes) or of a slice -/
 def len {α : Type} (s : List α) : Int := Int.ofNat s.length
 
